@@ -302,14 +302,85 @@ class Ring:
             val = -d * c
         return (v, z3.IntVal(val))
 
-    def witness(self):
-        """a concrete point consistent with every substitution of this path: atom name -> int.
-        (non-zero verdicts were established at exactly this point.)"""
-        out = dict(self._points)
+    def witness(self, mod=None):
+        """a concrete point consistent with the path: atom name -> int.  Substitutions are exact; every
+        remaining zero-literal L == 0 is solved numerically (mod `mod`, default the ring's modulus / 2^127-1)
+        for one atom in which L is linear, later atoms first.  (Replay input construction only.)"""
+        M = mod or self._Q
+        out = {k: v % M for k, v in self._points.items()}
+        fixed = set()
         for v, val in self.subst:
             if z3.is_int_value(val):
-                out[str(v)] = val.as_long()
+                out[str(v)] = val.as_long() % M
+                fixed.add(str(v))
+        for (live, is_zero, origin) in self.lits:
+            if not is_zero:
+                continue
+            for L in live:
+                L = self._apply_subst(L)
+                vs = sorted([str(v) for v in _vars_of(L)], reverse=True)
+                if self.eval_at(L, out, M) == 0:
+                    continue
+                for name in vs:
+                    if name in fixed:
+                        continue
+                    o0 = dict(out, **{name: 0})
+                    o1 = dict(out, **{name: 1})
+                    o2 = dict(out, **{name: 2})
+                    b = self.eval_at(L, o0, M)
+                    a = (self.eval_at(L, o1, M) - b) % M
+                    if a == 0 or (self.eval_at(L, o2, M) - (2 * a + b)) % M != 0:
+                        continue
+                    try:
+                        out[name] = (-b) * pow(a, -1, M) % M
+                    except ValueError:
+                        continue
+                    fixed.add(name)
+                    break
         return out
+
+    def eval_at(self, t, values, M):
+        """numeric value of the polynomial term t at `values` (atom name -> int), modulo M."""
+        memo = {}
+        stack = [(t, False)]
+        while stack:
+            e, done = stack.pop()
+            i = e.get_id()
+            if i in memo:
+                continue
+            k = e.decl().kind()
+            if z3.is_int_value(e):
+                memo[i] = int(e.as_string()) % M
+                continue
+            if k == z3.Z3_OP_UNINTERPRETED and e.num_args() == 0:
+                memo[i] = values.get(str(e), self._point(e)) % M
+                continue
+            ch = e.children()
+            if not done:
+                stack.append((e, True))
+                for c in ch:
+                    if c.get_id() not in memo:
+                        stack.append((c, False))
+                continue
+            vals = [memo[c.get_id()] for c in ch]
+            if k == z3.Z3_OP_ADD:
+                v = sum(vals) % M
+            elif k == z3.Z3_OP_MUL:
+                v = 1
+                for x in vals:
+                    v = v * x % M
+            elif k == z3.Z3_OP_SUB:
+                v = vals[0]
+                for x in vals[1:]:
+                    v = (v - x) % M
+            elif k == z3.Z3_OP_UMINUS:
+                v = (-vals[0]) % M
+            elif k == z3.Z3_OP_MOD:
+                v = vals[0] % M
+            else:
+                raise Unsupported("eval_at: operator %s" % e.decl().name())
+            memo[i] = v
+        return memo[t.get_id()]
 
     def _product_of_nonzero(self, t):
         return self.status(t) == "nonzero"
